@@ -154,6 +154,34 @@ CHECKS.update({
         note='Trusted: the install model as transcription of Installing.md and the generated rules; listed unspecified corners (parent directory modes etc.) are not compared.'),
 })
 
+CHECKS.update({
+    'C08': dict(
+        category='model_checking', design_ref='DESIGN.md §4 C08',
+        technique='explicit-state BFS over histories of real lifecycle commands (setup / configure -D / -U / --reconfigure / --wipe / option-file edits / injected failures) on real build directories, product with a reference lifecycle model',
+        text='From a freshly configured generated project every command of a 24-28 command alphabet is applied to every reachable state up to the depth bound; the build directory of each '
+             'frontier state is kept as an in-memory snapshot and restored at a fixed path inside a private mount namespace; after every transition introspection, `meson configure`, '
+             'cmd_line.txt and (by a throw-away observer reconfigure) the get_option() values are compared with a LifecycleModel written from the property text; failed commands must leave every '
+             'persisted value unchanged; states are merged on (model state, observations) so merged states have equal futures, and two histories reaching one model state must observe the same.',
+        note='Trusted: the LifecycleModel as transcription of the property and docs; docs-silent commands are skipped and counted. Thorough caps the last level (reported, exhaustive=false there).'),
+    'C12': dict(
+        category='model_checking', design_ref='DESIGN.md §4 C12',
+        technique='stateless exploration of all event orders (process exits / timer expiries) of the real asyncio TestHarness under a virtual event loop with a deviation bound, plus exhaustive selection tables and a conformance part with real processes',
+        text='The unmodified mtest.TestHarness.doit() runs from a real meson_test_setup.dat under an event-loop policy whose virtual loop hands every quiescent point to the explorer; fake '
+             'subprocesses exit when the explorer says so. For each configuration of a covering family (parallel/serial x outcomes x should_fail x protocol x jobs x repeat x maxfail) all '
+             'schedules within the deviation bound (all schedules for small n in thorough) are executed; each must start every selected test once, respect the job limit and serial isolation, '
+             'classify per the documented table, report totals/testlog/exit status truthfully. --slice and --suite selection are exhaustive tables; a smaller part replays configurations '
+             'through the real `meson test` with real self-logging child processes.',
+        note='Trusted: the virtual loop seam (asyncio policy + create_subprocess_exec + os.killpg outside mesonbuild). Interactive/gdb/Ctrl-C paths are out of scope.'),
+    'C17': dict(
+        category='exploration', design_ref='DESIGN.md §4 C17',
+        technique='bounded exhaustive enumeration of expression trees x re-print contexts and of rewriter commands (and command pairs) x project shapes through the real `meson rewrite`, with the reference parser/evaluator as oracle',
+        text='Every expression tree to depth 2 over a typed 34-operator family and 21 string-literal classes is placed in the other arguments of every statement the rewriter re-prints; every '
+             'rewriter command (CLI and JSON forms) and every ordered pair runs on 12 project shapes. After each real `meson rewrite` process the touched file must parse (real parser and '
+             'reference parser), the addressed target/keyword must have the requested value (reference model + `info`), every byte outside the edited statement must be unchanged, and every '
+             'other argument of a re-printed statement must evaluate to the same value for all assignments of its free identifiers.',
+        note='Trusted: lib/verif/reflang.py as independent reading of the language; listed unspecified corners (duplicate sources, non-literal addressed keywords, ...) are counted, not compared.'),
+})
+
 NOT_YET = {}
 
 
